@@ -137,6 +137,7 @@ pub enum Node {
     UseInterned(IntKey),
     UseChain,
     RowParam(Row),
+    KeysTotal,
     // leaves created by interning
     InternVal(i32),
     InternRow(Row),
@@ -206,6 +207,7 @@ pub trait Reader {
     fn use_interned(&self, h: Self::IntH) -> i32;
     fn use_chain(&self) -> i32;
     fn row_param(&self, h: Self::RowH) -> i32;
+    fn keys_total(&self) -> i64;
 }
 
 fn b_val_of<R: Reader>(r: &R, k: u8) -> i32 {
@@ -318,6 +320,12 @@ fn b_use_chain<R: Reader>(r: &R) -> i32 {
 fn b_row_param<R: Reader>(r: &R, h: R::RowH) -> i32 {
     let row = r.row_lookup(h);
     row.score * 4 + row.name as i32
+}
+
+/// a parameterless parent of children with an owned and a borrowed non-source parameter: after a
+/// collection the children can only be re-executed if their parameters were migrated
+fn b_keys_total<R: Reader>(r: &R) -> i64 {
+    r.sum_keys(vec![0, 1]) as i64 * 1000 + r.sum_keys_ref(&vec![1, 2])
 }
 
 // ------------------------------------------------------------------------------------------------
@@ -456,6 +464,12 @@ fn row_param(db: &TestDb, h: MemoRef<Row>) -> i32 {
     let p = P(db);
     db.count(Node::RowParam(p.row_lookup(h)));
     b_row_param(&p, h)
+}
+
+#[memo]
+fn keys_total(db: &TestDb) -> i64 {
+    db.count(Node::KeysTotal);
+    b_keys_total(&P(db))
 }
 
 /// `SourceId` -> small key, without touching the database (so it registers no dependency).
@@ -618,6 +632,9 @@ impl<'db> Reader for P<'db> {
     }
     fn row_param(&self, h: MemoRef<Row>) -> i32 {
         *row_param(self.0, h)
+    }
+    fn keys_total(&self) -> i64 {
+        *keys_total(self.0)
     }
 }
 
@@ -832,6 +849,9 @@ impl<'a> Reader for M<'a> {
     fn row_param(&self, h: Row) -> i32 {
         self.call(Node::RowParam(h), |m| b_row_param(m, h))
     }
+    fn keys_total(&self) -> i64 {
+        self.call(Node::KeysTotal, |m| b_keys_total(m))
+    }
 }
 
 // ------------------------------------------------------------------------------------------------
@@ -868,6 +888,7 @@ pub enum CallSpec {
     UseChain,
     /// `row_ref(name)` (or `row_ref_b` when `b`) then `row_param(handle)`
     RowParamVia(u8, bool),
+    KeysTotal,
 }
 
 #[derive(Clone, Debug, PartialEq, Eq)]
@@ -959,6 +980,7 @@ impl CallSpec {
             UseInterned(v) => format!("use_interned {v}"),
             UseChain => "use_chain".into(),
             RowParamVia(n, b) => format!("row_param_via {n} {}", if *b { "b" } else { "a" }),
+            KeysTotal => "keys_total".into(),
         }
     }
     pub fn decode(w: &[&str]) -> Option<CallSpec> {
@@ -991,6 +1013,7 @@ impl CallSpec {
             "use_interned" => UseInterned(a(1)?.parse().ok()?),
             "use_chain" => UseChain,
             "row_param_via" => RowParamVia(k(1)?, a(2)? == "b"),
+            "keys_total" => KeysTotal,
             _ => return None,
         })
     }
@@ -1230,6 +1253,10 @@ pub fn perform<R: Reader>(r: &R, spec: &CallSpec) -> Performed<R::IntH, R::RowH>
             top.push(Node::UseChain);
             vec![r.use_chain() as i64]
         }
+        KeysTotal => {
+            top.push(Node::KeysTotal);
+            vec![r.keys_total()]
+        }
         RowParamVia(n, b) => {
             let h = if *b {
                 top.push(Node::RowRefB(*n));
@@ -1281,6 +1308,7 @@ pub fn model_deps(st: &State, n: &Node) -> (Vec<Dep>, BTreeSet<Src>, BTreeSet<No
         Node::UseInterned(key) => drop(m.use_interned(model_handle(st, *key))),
         Node::UseChain => drop(m.use_chain()),
         Node::RowParam(row) => drop(m.row_param(*row)),
+        Node::KeysTotal => drop(m.keys_total()),
         Node::InternVal(_) | Node::InternRow(_) => return (vec![], BTreeSet::new(), BTreeSet::new()),
     }
     let f = m.root.borrow_mut().take().expect("root frame");
@@ -1328,6 +1356,7 @@ pub fn model_value(st: &State, n: &Node) -> Val {
         Node::UseInterned(key) => vec![m.use_interned(model_handle(st, *key)) as i64],
         Node::UseChain => vec![m.use_chain() as i64],
         Node::RowParam(row) => vec![m.row_param(*row) as i64],
+        Node::KeysTotal => vec![m.keys_total()],
         Node::InternVal(v) => vec![*v as i64],
         Node::InternRow(r) => vec![r.name as i64, r.score as i64],
     }
